@@ -288,6 +288,18 @@ func (s *State) TxStatus(hash string) *mhub2types.TxStatus {
 	return &t
 }
 
+// AllTxStatuses returns every stored transfer status, keyed by the inbound transaction hash.
+func (s *State) AllTxStatuses() map[string]mhub2types.TxStatusType {
+	out := map[string]mhub2types.TxStatusType{}
+	iterPrefix(s.m, []byte{mhub2types.TxStatusKey}, func(k, v []byte) {
+		var t mhub2types.TxStatus
+		if err := t.Unmarshal(v); err == nil {
+			out[string(k[1:])] = t.Status
+		}
+	})
+	return out
+}
+
 func (s *State) FeeRecord(hash string) *mhub2types.TxFeeRecord {
 	bz := s.m.Get(mhub2types.GetTxFeeRecordKey(hash))
 	if len(bz) == 0 {
